@@ -18,8 +18,8 @@ import (
 	"errors"
 	"fmt"
 	"math/rand"
-	"os"
 	"sort"
+	"strings"
 	"sync"
 	"time"
 
@@ -642,18 +642,27 @@ func genAPI(r *rand.Rand) (apiCase, []string) { //nolint:gocognit,cyclop
 func main() {
 	o := cq.ParseFlags()
 	r := o.Rand()
-	core := &cq.Set{
-		Name: "c03core", Import: "IV.Check.C03Check", CaseType: "core_case",
-		Checks: []string{"core_mismatches", "core_spec_failures"},
+	// several sets per stream so that the driver evaluates them in parallel (one coqc per set shard)
+	const nCoreSets, nAPISets = 6, 4
+	var cores, apis []*cq.Set
+	for i := 0; i < nCoreSets; i++ {
+		cores = append(cores, &cq.Set{
+			Name: fmt.Sprintf("c03core%d", i), Import: "IV.Check.C03Check", CaseType: "core_case",
+			Checks: []string{"core_mismatches", "core_spec_failures"},
+		})
 	}
-	api := &cq.Set{
-		Name: "c03api", Import: "IV.Check.C03Check", CaseType: "api_case",
-		Checks: []string{"api_mismatches", "api_spec_failures"},
+	for i := 0; i < nAPISets; i++ {
+		apis = append(apis, &cq.Set{
+			Name: fmt.Sprintf("c03api%d", i), Import: "IV.Check.C03Check", CaseType: "api_case",
+			Checks: []string{"api_mismatches", "api_spec_failures"},
+		})
 	}
+	core, api := cores[0], apis[0]
+	all := append(append([]*cq.Set{}, cores...), apis...)
 	load := func(path, bucket string) {
 		var raw map[string]interface{}
 		set := cq.LoadReplay(path, &raw)
-		if set == "c03core" {
+		if strings.HasPrefix(set, "c03core") {
 			var c coreCase
 			cq.LoadReplay(path, &c)
 			core.Cases = append(core.Cases, runCore(c.Size, c.Ops).toCase([]string{bucket}))
@@ -666,6 +675,7 @@ func main() {
 	if o.Replay != "" {
 		load(o.Replay, "replay")
 		cq.Write(o, "replay", []*cq.Set{core, api}, nil, nil)
+		_ = all
 
 		return
 	}
@@ -673,13 +683,14 @@ func main() {
 		load(f, "corpus")
 	}
 
-	ncore := o.Scale(1000, 60000)
+	ncore := o.Scale(780, 60000)
 	for i := 0; i < ncore; i++ {
 		size, ops, bk := genCore(r)
-		core.Cases = append(core.Cases, runCore(size, ops).toCase(bk))
+		cs := cores[i%nCoreSets]
+		cs.Cases = append(cs.Cases, runCore(size, ops).toCase(bk))
 	}
 
-	napi := o.Scale(220, 8000)
+	napi := o.Scale(168, 8000)
 	type job struct {
 		in apiCase
 		bk []string
@@ -702,15 +713,12 @@ func main() {
 	}
 	wg.Wait()
 	for i := range jobs {
-		api.Cases = append(api.Cases, res[i].toCase(jobs[i].bk))
-	}
-	if len(core.Cases)+len(api.Cases) == 0 {
-		fmt.Fprintln(os.Stderr, "no cases")
-		os.Exit(1)
+		as := apis[i%nAPISets]
+		as.Cases = append(as.Cases, res[i].toCase(jobs[i].bk))
 	}
 	cq.Write(o, "core: receiveLog histories (8..100 add calls with missingSeqNumbers queries in between, sizes 64..32768, "+
 		"traffic modes in-order/window-edge/half-range/uniform), non-trivial = at least one query returned a non-empty list; "+
 		"api: GeneratorInterceptor histories over 1..3 nack streams + optional non-nack stream + sentinel, 4..13 ticks, "+
 		"non-trivial = at least one NACK for a non-sentinel stream",
-		[]*cq.Set{core, api}, map[string]interface{}{"api_tick_method": "one loop iteration per BindRTCPWriter/Close cycle, sentinel stream marks the tick"}, nil)
+		all, map[string]interface{}{"api_tick_method": "one loop iteration per BindRTCPWriter/Close cycle, sentinel stream marks the tick"}, nil)
 }
